@@ -268,20 +268,47 @@ class SignatureInfo:
     # resulting `Partial`.
     parameters = list(self.parameters.values())
     positional_values = []
+    # Parameters that are unset but precede a value that is passed
+    # positionally. They cannot simply be left out of the *args list: every
+    # later value would then be bound to the wrong parameter.
+    skipped_params = []
+
+    def fill_skipped_params():
+      for skipped_index, skipped_param in skipped_params:
+        if skipped_param.default is skipped_param.empty:
+          raise TypeError(
+              f'Missing value for positional parameter {skipped_param.name!r}'
+              f' (index {skipped_index}); it is required because a later'
+              ' positional argument is set.'
+          )
+        positional_values.append(skipped_param.default)
+      skipped_params.clear()
+
     for index, param in enumerate(parameters):
       if param.kind == param.POSITIONAL_ONLY:
         if index in arguments:
+          fill_skipped_params()
           positional_values.append(arguments[index])
           del arguments[index]
         elif include_no_value:
           positional_values.append(self.get_default(index, NO_VALUE))
+        else:
+          skipped_params.append((index, param))
       if param.kind == param.POSITIONAL_OR_KEYWORD:
         if include_pos_or_kw_in_args or self.var_positional_start in arguments:
           if param.name in arguments:
+            fill_skipped_params()
             positional_values.append(arguments[param.name])
             del arguments[param.name]
           elif include_no_value:
             positional_values.append(self.get_default(index, NO_VALUE))
+          else:
+            skipped_params.append((index, param))
+    if (
+        self.var_positional_start is not None
+        and self.var_positional_start in arguments
+    ):
+      fill_skipped_params()
     if self.var_positional_start is not None:
       index = self.var_positional_start
       while index in arguments:
